@@ -106,12 +106,18 @@ async fn run_world(wi: u64, mut rng: Rng) -> anyhow::Result<(String, serde_json:
     // nothing may leave the stopped node after stop() returned (allow 2 ms of trace-clock skew)
     tokio::time::sleep(Duration::from_millis(2 * T_MS)).await;
     let trace = net.take_trace();
+    if std::env::var("C20_ONLY").is_ok() {
+        eprintln!("stop began at {} ms, returned at {} ms (trace clock)", stop_returned_at - stop_ms, stop_returned_at);
+        for e in trace.iter().filter(|e| e.at_ms + 50 >= stop_returned_at - stop_ms) {
+            eprintln!("  {:>6} {}->{} req={} {} delivered={} {:?}", e.at_ms, &e.from[..6], &e.to[..6.min(e.to.len())], e.is_request, e.op, e.delivered, e.result);
+        }
+    }
     let late: Vec<&TraceEv> = trace.iter().filter(|e| e.is_request && e.from == nodes[a].tid && e.at_ms > stop_returned_at + 2).collect();
     let mut viol = vec![];
     if stopped.is_err() { viol.push(json!({"what": "stop() did not return within 60 s", "world": wi})); }
     for h in &hung { viol.push(json!({"what": "operation did not complete within 60 s", "op": h, "world": wi})); }
     // D = dial (<= T) + send (<= T) + answer-or-timeout (<= T)
-    let term = format!("({}, {}, {}, {})", 3 * T_MS, 400,
+    let term = format!("({}, {}, {}, {})", 3 * T_MS, 1500,
         coq_list(obs.iter().map(|(k, ms)| format!("({}, {})", k, ms))), late.len() + hung.len() + if stopped.is_err() { 1 } else { 0 });
     let desc = json!({"world": wi, "nodes": n, "node_under_test": a, "ops": obs.iter().map(|(k, ms)| json!([k, ms])).collect::<Vec<_>>(),
         "silent_plan_ms_node": silent_plan, "stop_at_ms": stop_at, "stop_took_ms": stop_ms, "peers_known_at_stop": peers_known,
@@ -137,10 +143,11 @@ fn main() {
     sum.rule = "2..12 real nodes, random connectivity, seeded per-frame delivery delays (0..20 ms), 3..9 concurrent lookups/puts/gets (most on one node, some elsewhere so that it also serves inbound requests), up to 3 peers turned silent at random instants, stop() of the node under test at a random instant 0..200 ms. Non-trivial = at least 3 operations measured; distinct = different world seeds".into();
     let mut w = CaseWriter::new(&args.out, "cases_c20", HEADER, "N * N * list (opkind * N) * N", "check_tcase", "check_tcase", 40);
     let worlds = if args.thorough() { 400 } else { 40 };
-    let conc = 6usize;
+    let conc = 3usize;
     let mut id = 0u64; let mut wi = 0;
     while wi < worlds {
-        let futs: Vec<_> = (0..conc.min(worlds - wi)).map(|k| run_world((wi + k) as u64, rng.fork())).collect();
+        let only: Option<usize> = std::env::var("C20_ONLY").ok().and_then(|x| x.parse().ok());
+        let futs: Vec<_> = (0..conc.min(worlds - wi)).map(|k| (wi + k, rng.fork())).filter(|(w, _)| only.map(|o| o == *w).unwrap_or(true)).map(|(w, r)| run_world(w as u64, r)).collect();
         for o in rt.block_on(futures::future::join_all(futs)) {
             match o {
     Ok((term, desc, nontrivial, viol)) => {
